@@ -464,7 +464,9 @@ func c03Probes(c *mon.Ctx) {
 		{"e_midnight_local", time.Date(2020, 1, 1, 0, 0, 0, 0, tokyo), time.Time{}},
 	}
 	var names []string
+	shapeBy := map[string]shape{}
 	for _, sh := range shapes {
+		shapeBy[sh.name] = sh
 		m := lint.LintMetadata{Description: "verif probe", Citation: "verif", Source: lint.Community, EffectiveDate: sh.e, IneffectiveDate: sh.i}
 		mc, mr, mo := m, m, m
 		mc.Name, mr.Name, mo.Name = "e_verif_probe_cert_"+sh.name, "e_verif_probe_crl_"+sh.name, "e_verif_probe_ocsp_"+sh.name
@@ -525,7 +527,15 @@ func c03Probes(c *mon.Ctx) {
 					if r == nil {
 						continue
 					}
-					in := mon.InWindow(li.Meta, o.Date())
+					// the window is the one THIS HARNESS registered the probe with (instants), not what the registry
+					// hands back: a registration that rewrites the dates must keep the instants
+					sh := shapeBy[shapeOf(li.Name)]
+					spec := lint.LintMetadata{EffectiveDate: sh.e, IneffectiveDate: sh.i}
+					if !li.Meta.EffectiveDate.Equal(sh.e) || !li.Meta.IneffectiveDate.Equal(sh.i) {
+						c.V(fmt.Sprintf("probe-window-changed-by-registration|%s|%s", kind, shapeOf(li.Name)),
+							fmt.Sprintf("probe %s was registered with the window [%s, %s) but the registry hands it out with [%s, %s): a different instant", li.Name, sh.e.Format(time.RFC3339), sh.i.Format(time.RFC3339), li.Meta.EffectiveDate.Format(time.RFC3339), li.Meta.IneffectiveDate.Format(time.RFC3339)), li.Name, nil, nil)
+					}
+					in := mon.InWindow(spec, o.Date())
 					c.R.Count("probe_judgements", 1)
 					c.R.Distinct("probe_outcomes", fmt.Sprintf("%s:%v", li.Name, in))
 					if in && r.Status != lint.Pass || !in && r.Status != lint.NE {
